@@ -150,14 +150,18 @@ def run(ctx, prog):
             if t != ready_val(undo[0][1]):
                 return 'error returned is not the outcome of the undo (a failed undo must be reported)'
             if ok_ins:
-                # the method went into the document before the failure: it has to come out again
-                if not rem or p.calls.index(rem[0]) < p.calls.index(ins[0]):
-                    return 'key-id recording failed but the inserted method stays in the document'
-                mid = rem[0].args[1]
-                if not apps(mid, r'VerificationMethod::id$'):
-                    return 'rollback removes something other than the inserted method'
+                # the method went into the document before the failure: the document has to be as it was before the call.
+                # remove_method is not that: it also removes every *reference* to the id, and references may have been there
+                # before (the id of a general-purpose method may already be referenced) - a snapshot taken before the
+                # insertion is
+                snap = [c for c in p.calls if re.search(r'%s as .*Clone>::clone$|%s::clone$' % (docty, docty), c.name) and p.calls.index(c) < p.calls.index(ins[0])]
+                back = [v for k_, v in p.st.mem.items() if isinstance(k_, str) and k_.startswith('sym:') and isinstance(v, VSym) and snap and v.term == snap[0].ret]
+                if not back:
+                    if not rem or p.calls.index(rem[0]) < p.calls.index(ins[0]):
+                        return 'key-id recording failed but the inserted method stays in the document'
+                    return 'rollback through remove_method also drops the references to the id that existed before the call; the document is not restored'
             return None
-        A.require('generate_method[%s]/all-or-nothing-over-every-fault-subset' % docty, paths, r_gen, replay=R('[generate]'))
+        A.require('generate_method[%s]/all-or-nothing-over-every-fault-subset' % docty, paths, r_gen, replay=R('[generate'))
 
     # ---------------------------------------------------------------------------------------------------------- purge_method
     for doc in ('core_document', 'iota_document'):
